@@ -90,6 +90,11 @@ def pathological(rng: random.Random, n_long: int) -> List[Tuple[str, Any, str]]:
               "foo = spam\rfoo = eggs", "a = 1 b\x0ca = 2 c", "a = 1 b\u2028a = 2 c"):
         out.append(("rg", [t.encode().decode("unicode_escape") if "\\" in t else t], "rg-adjacent-" + t[:12]))
         out.append(("md", "    " + t.replace("\n", "\n    ") + "\n", "md-adjacent-" + t[:12]))
+    # many juxtaposed string segments (no nesting at all): F22, a RecursionError until fix 971a551
+    for n in (20, 40, 400, 4000):
+        out.append(("rg", ["x'y'" * n], f"rg-juxtaposed-{2 * n}-segments"))
+        out.append(("rg", ["{1 " + "a'b'" * n + "} eggs"], f"rg-juxtaposed-unit-{2 * n}-segments"))
+    out.append(("md", "    " + 'x"y" {2}' * 300 + " = z\n", "md-juxtaposed-900-segments"))
     out.append(("rg", ["f(" * 30 + "x" + ")" * 30], "rg-depth-30"))
     out.append(("rg", ["(" * 30 + "x" + ")" * 29], "rg-depth-30-unbalanced"))
     out.append(("md", ("> " * 20) + "{" + "1" * 200, "md-nested-quote-brace"))
